@@ -109,14 +109,60 @@ def sixKinds (k : String) : Prop :=
   k = "Unexpected end" ∨ k = "Lexical error" ∨ k = "Unknown term" ∨ k = "Term cannot start an expression" ∨
   k = "Term can only start an expression" ∨ k = "Unexpected term"
 
-/-- where a parser error points: at a token of the input `ts`, or nowhere (line 0, pos 0) for the
-    `Unexpected end` which `p.next()` builds from the zero token after the stream is exhausted -/
+/-- what is known, per error kind, about the token an error points at (`nudless` / `ledless` refer to the grammar
+    table entry of the token's id; id 26 is `{`, which has no null denotation while it starts a block) -/
+def kindTok (k : String) (t : Tok) : Prop :=
+  (k = "Lexical error" → t.id = 0) ∧
+  (k = "Unknown term" → t.id ≠ 0 ∧ table t.id = none) ∧
+  (k = "Term cannot start an expression" → t.id = 26 ∨ ∃ nm b l, table t.id = some (nm, b, .none, l)) ∧
+  (k = "Term can only start an expression" → ∃ nm b x, table t.id = some (nm, b, x, .none) ∧ 0 < b)
+
+/-- where a parser error points: at a token of the input `ts` which is not a comment token and fits the error
+    kind (`kindTok`), or nowhere (line 0, pos 0) for the `Unexpected end` which `p.next()` builds from the zero
+    token after the stream is exhausted -/
 def EPos (ts : List Tok) : Err → Prop
-  | .perr k l c => sixKinds k ∧ ((∃ t ∈ ts, t.line = l ∧ t.col = c) ∨ (k = "Unexpected end" ∧ l = 0 ∧ c = 0))
+  | .perr k l c => sixKinds k ∧
+      ((∃ t ∈ ts, t.id ≠ 3 ∧ t.id ≠ 4 ∧ t.line = l ∧ t.col = c ∧ kindTok k t) ∨ (k = "Unexpected end" ∧ l = 0 ∧ c = 0))
   | _ => True
 
-theorem EPos.at {ts : List Tok} {t : Tok} {k : String} (h : t ∈ ts) (hk : sixKinds k) : EPos ts (errAt k t) :=
-  ⟨hk, Or.inl ⟨t, h, rfl, rfl⟩⟩
+theorem EPos.at {ts : List Tok} {t : Tok} {k : String} (h : t ∈ ts) (hnc : t.id ≠ 3 ∧ t.id ≠ 4) (hk : sixKinds k)
+    (hkt : kindTok k t) : EPos ts (errAt k t) :=
+  ⟨hk, Or.inl ⟨t, h, hnc.1, hnc.2, rfl, rfl, hkt⟩⟩
+
+/-- a fresh node's token has a grammar entry, so it is not a comment token -/
+theorem Fresh.not_comment {n : Node} (h : Fresh n) {t : Tok} (ht : n.tok = some t) : t.id ≠ 3 ∧ t.id ≠ 4 := by
+  obtain ⟨bb, t', ms, htab, rfl⟩ := h
+  simp [instanceOf_tok] at ht; subst ht
+  constructor <;> (intro hid; rw [hid] at htab; simp [table] at htab)
+
+/-- a fresh node without null denotation: `{` (as block start) or a table entry without one -/
+theorem Fresh.nud_none_tok {n : Node} (h : Fresh n) {t : Tok} (ht : n.tok = some t) (hn : n.nud = .none) :
+    t.id = 26 ∨ ∃ nm b l, table t.id = some (nm, b, .none, l) := by
+  obtain ⟨bb, t', ms, htab, rfl⟩ := h
+  simp [instanceOf_tok] at ht; subst ht
+  unfold instanceOf at hn
+  split at hn
+  · next hc => exact Or.inl hc.1
+  · cases hv : table t'.id with
+    | none => simp [hv] at htab
+    | some v =>
+      obtain ⟨nm, b, x, l⟩ := v
+      simp [hv, Node.nud, Node.addMeta] at hn
+      exact Or.inr ⟨nm, b, l, by rw [hn]⟩
+
+/-- a fresh node without left denotation but with a positive binding is a table entry of that kind -/
+theorem Fresh.led_none_tok {n : Node} (h : Fresh n) {t : Tok} (ht : n.tok = some t) (hl : n.led = .none)
+    (hb : 0 < n.binding) : ∃ nm b x, table t.id = some (nm, b, x, .none) ∧ 0 < b := by
+  obtain ⟨bb, t', ms, htab, rfl⟩ := h
+  simp [instanceOf_tok] at ht; subst ht
+  by_cases hc : t'.id = T_LBRACE ∧ bb > 0
+  · simp [instanceOf, hc, Node.binding, Node.addMeta] at hb
+  · cases hv : table t'.id with
+    | none => simp [hv] at htab
+    | some v =>
+      obtain ⟨nm, b, x, l⟩ := v
+      simp [instanceOf, hc, hv, Node.led, Node.binding, Node.addMeta] at hl hb
+      exact ⟨nm, b, x, by rw [hl], hb⟩
 
 /-- the token of a node is a token of the input -/
 def NodeIn (ts : List Tok) (n : Node) : Prop := ∀ t, n.tok = some t → t ∈ ts
@@ -166,6 +212,21 @@ theorem splitComments_length : ∀ (ts : List Tok) (pre post : List Meta) (rest 
       · simp at h; obtain ⟨_, _, rfl⟩ := h; simp; omega
       · simp at h; obtain ⟨_, _, rfl⟩ := h; simp
 
+theorem splitComments_head : ∀ (l : List Tok) (pre post : List Meta) (t : Tok) (rest : List Tok),
+    splitComments l = (pre, post, t :: rest) → t.id ≠ 3 ∧ t.id ≠ 4 := by
+  intro l
+  induction l with
+  | nil => intro pre post t rest h; simp [splitComments] at h
+  | cons x xs ih =>
+    intro pre post t rest h
+    rcases hs : splitComments xs with ⟨a, b, r⟩
+    simp only [splitComments, hs] at h
+    split at h
+    · simp at h; obtain ⟨_, _, rfl⟩ := h; exact ih a b t rest hs
+    · split at h
+      · simp at h; obtain ⟨_, _, rfl⟩ := h; exact ih a b t rest hs
+      · next h3 h4 => simp at h; obtain ⟨_, _, rfl, _⟩ := h; exact ⟨h3, h4⟩
+
 theorem nextNode_spec (p : P) (hp : ∀ t ∈ p.toks, t ∈ ts) :
     Sat nextNode p (fun r p' => Fresh r.1 ∧ NodeIn ts r.1 ∧ p'.node = p.node ∧ p'.toks.length < p.toks.length ∧
         ∀ t ∈ p'.toks, t ∈ ts)
@@ -201,13 +262,17 @@ theorem nextNode_spec (p : P) (hp : ∀ t ∈ p.toks, t ∈ ts) :
     · next pre post t rest hs =>
       have hsub := splitComments_sub _ _ _ _ hs
       have hmem : t ∈ ts := hp _ (hsub _ (by simp))
+      have hnc := splitComments_head _ _ _ _ _ hs
       split at hn
-      · simp at hn; obtain ⟨rfl, _⟩ := hn
-        exact ⟨by simp [errAt], by simp [errAt], EPos.at hmem (by simp [sixKinds])⟩
-      · split at hn
+      · next hid0 =>
+        simp at hn; obtain ⟨rfl, _⟩ := hn
+        exact ⟨by simp [errAt], by simp [errAt], EPos.at hmem hnc (by simp [sixKinds]) (by simp [kindTok, hid0])⟩
+      · next hid0 =>
+        split at hn
         · simp at hn
-        · simp at hn; obtain ⟨rfl, _⟩ := hn
-          exact ⟨by simp [errAt], by simp [errAt], EPos.at hmem (by simp [sixKinds])⟩
+        · next hnone =>
+          simp at hn; obtain ⟨rfl, _⟩ := hn
+          exact ⟨by simp [errAt], by simp [errAt], EPos.at hmem hnc (by simp [sixKinds]) (by simp [kindTok, hid0, hnone])⟩
 
 /-- errors of the primitive actions: parser errors only -/
 abbrev EPrim (ts : List Tok) (e : Err) : Prop := e ≠ .panic ∧ e ≠ .fuel ∧ EPos ts e
@@ -257,8 +322,8 @@ theorem skipToken_spec {p : P} (ids : List Nat) (h : Cur ts p) :
   rintro t' p'' ⟨rfl, rfl⟩
   split
   · split
-    · exact Sat.throw ⟨by simp [errAt], by simp [errAt], EPos.at (hin _ ht) (by simp [sixKinds])⟩
-    · exact Sat.throw ⟨by simp [errAt], by simp [errAt], EPos.at (hin _ ht) (by simp [sixKinds])⟩
+    · exact Sat.throw ⟨by simp [errAt], by simp [errAt], EPos.at (hin _ ht) (hf.not_comment ht) (by simp [sixKinds]) (by simp [kindTok])⟩
+    · exact Sat.throw ⟨by simp [errAt], by simp [errAt], EPos.at (hin _ ht) (hf.not_comment ht) (by simp [sixKinds]) (by simp [kindTok])⟩
   · apply Sat.bind (advance_spec _ (Cur.toks (by assumption))) (fun _ h => h)
     intro _ p2 h2
     exact Sat.pure h2
@@ -280,7 +345,7 @@ theorem acceptChild_spec {p : P} (id : Nat) (h : Cur ts p) :
   rintro t' p'' ⟨rfl, rfl⟩
   split
   · next hid => exact Sat.pure ⟨hc, hl, hf, t', ht, hid⟩
-  · exact Sat.throw ⟨by simp [errAt], by simp [errAt], EPos.at (hin _ ht) (by simp [sixKinds])⟩
+  · exact Sat.throw ⟨by simp [errAt], by simp [errAt], EPos.at (hin _ ht) (hf.not_comment ht) (by simp [sixKinds]) (by simp [kindTok])⟩
 
 theorem isNotEndAndNotTokens_spec {p : P} (ids : List Nat) (h : Cur ts p) :
     Sat (isNotEndAndNotTokens ids) p (fun _ p' => p = p') (EPrim ts) := by
